@@ -38,7 +38,8 @@ type Imp struct {
 	Unused bool // no symbol of the imported file is referenced by the generated source
 	Public bool
 	// Weak renders `import weak "…";` (descriptor field weak_dependency; legal in every syntax).
-	// Only generated with Opts.RichImports (C01).
+	// Generated with Opts.RichImports (C01), Opts.ImportModifiers and by GenModifierFamily
+	// (modifiers.go).
 	Weak bool
 	// EffUnused, when set, is what the compiler reported for this import in an independent run
 	// (with public imports a referenced symbol may be found through an earlier import, so the
@@ -271,6 +272,10 @@ type Opts struct {
 	// dependency / public_dependency / weak_dependency / unused_dependency all carry several
 	// indexes in every relative order.  Draws extra random numbers only when set.
 	RichImports bool
+	// ImportModifiers re-draws the modifier (plain / public / weak) of EVERY import of the finished
+	// workspace from a stream of its own (1/3 weak, 1/4 public), see modifiers.go.  Gen's own draws
+	// are the same with and without it.
+	ImportModifiers bool
 }
 
 // Gen generates one workspace.
@@ -452,6 +457,9 @@ func Gen(r *hx.Rand, o Opts) *WS {
 		if r.Chance(4, 10) {
 			genDuplicates(r, ws, o.CommitTies)
 		}
+	}
+	if o.ImportModifiers {
+		applyModifiers(r.Fork(1<<42), ws)
 	}
 	for i := range ws.Added {
 		sort.Slice(ws.Added[i].Files, func(x, y int) bool { return ws.Added[i].Files[x].Path < ws.Added[i].Files[y].Path })
@@ -807,6 +815,13 @@ func (ws *WS) encAdded() []string {
 					unused := imp.Unused
 					if imp.EffUnused != nil {
 						unused = *imp.EffUnused
+					}
+					// the modifier as fastscan reports it: ^ = public, ~ = weak (after the unused mark)
+					switch imp.Mod() {
+					case ModPublic:
+						e = "^" + e
+					case ModWeak:
+						e = "~" + e
 					}
 					if unused {
 						e = "!" + e
